@@ -99,9 +99,10 @@ theorem half_byte_spec (c : Nat) (h : c < 16) : halfByte c 2 = .ok [17 * c, 17 *
   rw [lor_nibble c h, if_neg (by omega)]
   rfl
 
-/-- the hypotheses are satisfiable by a non-trivial value: the captured voice-sync frame of the
-test-suite (destination 111, source 2308090, colour code 5, pad octet 0x36 ≠ 0) is `bytes` of a
-well-formed `Frame`, and both decoders and the serialiser compute on it what the theorems say -/
+/-- the hypotheses are satisfiable by non-trivial values: two captured frames of the test-suite are
+`bytes` of well-formed `Frame`s — a voice-sync frame (destination 111, source 2308090, colour code 5)
+and a wake-up frame whose 34th payload octet (the pad) is `ef`, not 0 — and the decoders compute on
+them what the theorems say -/
 def exFrame : Frame :=
   { first := [0x5a, 0x5a], seq := 0, r3 := [0, 0, 0], pt := 1, r7 := [0, 5, 1, 1, 0, 0, 0], ts := 0, st := 14,
     cc := 5, ft := 1, r2a := [0x40, 0x28],
@@ -116,5 +117,23 @@ example : exFrame.wf = true ∧ exFrame.bytes.length = 72 ∧
 
 example : (fromIpscBytes exFrame.bytes).map (fun x => (x.src, x.dst, x.cc, x.pad))
     = .ok (2308090, 111, 5, [0x00]) := by rfl
+
+/-- `5a5a5a5a0000000042000501020000002222dddd5555000040000000…0100020002000100…00ffffef0891d1000000000000fa372300` -/
+def exWakeup : Frame :=
+  { first := [0x5a, 0x5a], seq := 0, r3 := [0, 0, 0], pt := 1, r7 := [0, 5, 1, 2, 0, 0, 0], ts := 1, st := 13,
+    cc := 5, ft := 0, r2a := [0x40, 0x00],
+    payload := [0x00, 0x00, 0x00, 0x00, 0x00, 0x00, 0x00, 0x00, 0x00, 0x00, 0x01, 0x00, 0x02, 0x00, 0x02, 0x00, 0x01,
+      0x00, 0x00, 0x00, 0x00, 0x00, 0x00, 0x00, 0x00, 0x00, 0x00, 0x00, 0x00, 0x00, 0xff, 0xff, 0xef, 0x08],
+    r2b := [0x91, 0xd1], ct := 0, dst := 0, src := 2308090, r1 := [0] }
+
+example : exWakeup.wf = true ∧ exWakeup.bytes.drop 56 = [0xff, 0xff, 0xef, 0x08, 0x91, 0xd1, 0x00, 0x00, 0x00, 0x00,
+    0x00, 0x00, 0xfa, 0x37, 0x23, 0x00] := by
+  decide
+
+set_option maxRecDepth 8192 in
+example : (burstRaw exWakeup.bytes).map (fun v => (v.cls, v.timeslot, v.src, v.cc))
+      = .ok (.wakeup, 2, 2308090, 5) ∧
+    (fromIpscBytes exWakeup.bytes).map (fun x => x.pad) = .ok [0xef] ∧
+    (fromIpscBytes exWakeup.bytes).bind asIpscBytes = .ok exWakeup.bytes := ⟨by rfl, by rfl, by rfl⟩
 
 end Dmr.C13
